@@ -175,6 +175,10 @@ pub fn budget(mode: PlanMode, thorough: bool, check: &str) -> Budget {
         PlanMode::Cancel => (6, 6, 200),
         PlanMode::Agree => (6, 4, 200),
     };
+    if thorough && check == "C17" {
+        // grid programs (up to 25 x 25 captured actions x 2 steps) have ~2000 events per run
+        return Budget { plans: p * 2, scheds: s * 2, pair_cap: c };
+    }
     if thorough && check == "C04" {
         // the thorough `pos` slice enumerates all 1364 depth profiles in all four families (5576 programs)
         return Budget { plans: p * 2, scheds: s * 2, pair_cap: c };
@@ -184,6 +188,8 @@ pub fn budget(mode: PlanMode, thorough: bool, check: &str) -> Budget {
             // enumerating modes grow with the number of positions: variants x2-3 (plans > 1), schedules x2
             PlanMode::FailEnum => Budget { plans: p * 3, scheds: s, pair_cap: c * 2 },
             PlanMode::PanicEnum => Budget { plans: p * 3, scheds: s * 4, pair_cap: c * 2 },
+            // async runs cost ~0.03 ms: explore much deeper
+            PlanMode::Async => Budget { plans: p * 16, scheds: s * 12, pair_cap: c * 2 },
             _ => Budget { plans: p * 6, scheds: s * 4, pair_cap: c * 2 },
         }
     } else {
